@@ -149,6 +149,9 @@ def tree_cases(ctx, lines, expect):
                 ctx.spec_failures.append(("C08:selected-eligible-module-not-replaced", {"tree": before, "module": n_, "filter": None if filt is None else chosen, "weights": wq, "activations": aq}))
             elif not swapped and m1 is not m0:
                 ctx.spec_failures.append(("C08:untouched-module-is-another-object", {"tree": before, "module": n_}))
+            if swapped and getattr(m1, "name", None) != n_:
+                # the quantized twin keeps the name of the module it replaces (its dotted path in the model)
+                ctx.spec_failures.append(("C08:quantized-module-records-another-name", {"tree": before, "module": n_, "recorded": getattr(m1, "name", None)}))
         # names, parameters, hyper-parameters, dtype, device
         if [n_ for n_, _ in model.named_modules()] != names:
             ctx.spec_failures.append(("C08:module-names-changed", {"tree": before}))
